@@ -674,6 +674,7 @@ void yield_point() {
   // a START is progress
   G_.th[tl_tid]->ro = 0; G_.th[tl_tid]->watch.clear();
 }
+void step_point() { G& G_ = gg(); if (!G_.active || tl_tid <= 0 || !G_.running) return; sched_point(); G_.th[tl_tid]->ro = 0; G_.th[tl_tid]->watch.clear(); }
 bool at_boundary(int tid) { G& G_ = gg(); return tid <= 0 || tid > G_.nth || G_.th[tid]->at_start || G_.th[tid]->finished; }
 int self() { return tl_tid; }
 uint64_t choose(uint64_t n) {
@@ -736,7 +737,7 @@ std::string fmt_rec(const Rec& r) {
     case K_FENCE: snprintf(buf, sizeof buf, "FENCE %s", mo_name(r.mo)); break;
     case K_LOCK: snprintf(buf, sizeof buf, "LOCK %s", sym_addr(r.addr).c_str()); break;
     case K_UNLOCK: snprintf(buf, sizeof buf, "UNLOCK %s", sym_addr(r.addr).c_str()); break;
-    case K_YIELD: snprintf(buf, sizeof buf, "YIELD"); break;
+    case K_YIELD: snprintf(buf, sizeof buf, r.addr ? "SCHED_YIELD" : "YIELD"); break;
     case K_ALLOC: snprintf(buf, sizeof buf, "ALLOC h%lu %lu", (unsigned long)r.v2, (unsigned long)r.v1); break;
     case K_FREE: snprintf(buf, sizeof buf, "FREE h%lu", (unsigned long)r.v2); break;
     case K_CHOICE: snprintf(buf, sizeof buf, "CHOICE %lu %lu", (unsigned long)r.v1, (unsigned long)r.v2); break;
@@ -747,6 +748,87 @@ std::string fmt_rec(const Rec& r) {
 }
 
 }  // namespace xv
+
+// ---------------------------------------------------------------------------------------------
+// pthread mutex / sched_yield interposition (left_right's writer mutex, polite spin loops)
+// ---------------------------------------------------------------------------------------------
+namespace xv {
+namespace {
+typedef int (*mutex_fn)(pthread_mutex_t*);
+mutex_fn real_lock = nullptr, real_unlock = nullptr, real_trylock = nullptr;
+int (*real_yield)() = nullptr;
+__attribute__((constructor)) void resolve_real() {
+  real_lock = (mutex_fn)dlsym(RTLD_NEXT, "pthread_mutex_lock");
+  real_unlock = (mutex_fn)dlsym(RTLD_NEXT, "pthread_mutex_unlock");
+  real_trylock = (mutex_fn)dlsym(RTLD_NEXT, "pthread_mutex_trylock");
+  real_yield = (int (*)())dlsym(RTLD_NEXT, "sched_yield");
+}
+bool managed() { return g && g->active && g->running && tl_tid > 0 && !tl_in_rt; }
+
+int model_lock(pthread_mutex_t* m, bool try_only) {
+  G& G_ = gg();
+  int me = tl_tid;
+  sched_point();
+  RtGuard rg;
+  while (G_.mutex_owner.count(m) && G_.mutex_owner[m] != 0) {
+    if (try_only) { record(K_LOCK, (uintptr_t)m, 0, 0, 0, 0, 0); return 16 /*EBUSY*/; }
+    Th* t = G_.th[me];
+    t->mutex_wait = 1; t->waiting_mutex = m;
+    uint32_t en = enabled_mask();
+    if (en == 0) deadlock();
+    int next = choose_next(me, en);
+    G_.res.schedule.push_back(next);
+    G_.res.enabled.push_back(en);
+    hand_over(me, next);
+  }
+  G_.mutex_owner[m] = me;
+  // lock acquisition synchronises with the previous unlock
+  if (G_.cfg.race || G_.cfg.weak) { ALoc& L = G_.alocs[(uintptr_t)m]; if (!L.msgs.empty() && L.msgs.back().has_rel) clock_of(me).join(L.msgs.back().rel); }
+  record(K_LOCK, (uintptr_t)m, 0, 0, 0, 0, 0);
+  G_.th[me]->ro = 0; G_.th[me]->watch.clear();
+  return 0;
+}
+int model_unlock(pthread_mutex_t* m) {
+  G& G_ = gg();
+  int me = tl_tid;
+  sched_point();
+  RtGuard rg;
+  G_.mutex_owner[m] = 0;
+  if (G_.cfg.race || G_.cfg.weak) { ALoc& L = G_.alocs[(uintptr_t)m]; Msg ms; ms.val = 0; ms.ts = ++G_.ts; ms.step = G_.steps; ms.tid = me; ms.has_rel = true; clock_of(me).c[me]++; ms.rel = clock_of(me); L.msgs.push_back(ms); }
+  for (int i = 1; i <= G_.nth; i++) if (G_.th[i]->mutex_wait && G_.th[i]->waiting_mutex == m) { G_.th[i]->mutex_wait = 0; G_.th[i]->waiting_mutex = nullptr; }
+  record(K_UNLOCK, (uintptr_t)m, 0, 0, 0, 0, 0);
+  G_.th[me]->ro = 0; G_.th[me]->watch.clear();
+  return 0;
+}
+}  // namespace
+}  // namespace xv
+
+extern "C" int pthread_mutex_lock(pthread_mutex_t* m) {
+  if (xv::managed()) return xv::model_lock(m, false);
+  if (!xv::real_lock) xv::resolve_real();
+  return xv::real_lock(m);
+}
+extern "C" int pthread_mutex_trylock(pthread_mutex_t* m) {
+  if (xv::managed()) return xv::model_lock(m, true);
+  if (!xv::real_trylock) xv::resolve_real();
+  return xv::real_trylock(m);
+}
+extern "C" int pthread_mutex_unlock(pthread_mutex_t* m) {
+  if (xv::managed()) return xv::model_unlock(m);
+  if (!xv::real_unlock) xv::resolve_real();
+  return xv::real_unlock(m);
+}
+extern "C" int sched_yield() {
+  if (xv::managed()) {
+    xv::sched_point();
+    xv::RtGuard rg;
+    xv::record(xv::K_YIELD, 1, 0, 0, 0, 0, 0);   // addr=1 marks sched_yield (START has addr 0)
+    xv::note_progress(xv::tl_tid, false, 0);
+    return 0;
+  }
+  if (!xv::real_yield) xv::resolve_real();
+  return xv::real_yield ? xv::real_yield() : 0;
+}
 
 // ---------------------------------------------------------------------------------------------
 // global allocation functions
